@@ -181,8 +181,10 @@ def finish(chk, known_findings, min_obligations, extra_cov) -> int:
     with open(os.path.join(OUT, "evidence", f"{prop}.json"), "w", encoding="utf-8") as fh:
         json.dump(ev, fh, indent=1, default=str)
 
-    for ln in lines:
+    for ln in lines[:25]:
         print(ln)
+    if len(lines) > 25:
+        print(f"... and {len(lines) - 25} more failing obligations of {prop} (replay files written for all of them)")
     for f in faults:
         print(f"CHECKER-FAULT property={prop} {f}")
     for u in undecided:
